@@ -1264,6 +1264,57 @@ func c19ExpRun(in *c19ExpIn) (*c19Built, c19ExpObs, []Failure, bool) {
 		fails = append(fails, Failure{Key: "aggregate-not-idempotent", What: "asking the same aggregates twice gave different answers",
 			Input: c19Input{Kind: "experiment", Exp: in}})
 	}
+	// the winner record survives a later reordering of the recorded generations: ask on the experiment's own
+	// trial slots (so that whatever WinnerStatistics caches stays there), reverse each trial's generations in
+	// place and ask again.  With at most one solved generation per trial the first solved generation is the
+	// same before and after, so the answers must not change.
+	if o.Code == 0 && len(fails) == 0 {
+		single := true
+		for _, t := range in.Trials {
+			n := 0
+			for _, g := range t.Gens {
+				if g.Solved {
+					n++
+				}
+			}
+			if n > 1 {
+				single = false
+			}
+		}
+		if single {
+			func() {
+				defer func() { _ = recover() }()
+				e := c19Build(in).exp // a second, independent build: the observed one stays as it is
+				before := make([][4]int, len(e.Trials))
+				for i := range e.Trials {
+					before[i][0], before[i][1], before[i][2], before[i][3] = e.Trials[i].WinnerStatistics()
+				}
+				var avg0, avg1 [4]float64
+				avg0[0], avg0[1], avg0[2], avg0[3] = e.AvgWinnerStatistics()
+				for i := range e.Trials {
+					gs := e.Trials[i].Generations
+					for l, r := 0, len(gs)-1; l < r; l, r = l+1, r-1 {
+						gs[l], gs[r] = gs[r], gs[l]
+					}
+				}
+				for i := range e.Trials {
+					var after [4]int
+					after[0], after[1], after[2], after[3] = e.Trials[i].WinnerStatistics()
+					if after != before[i] {
+						fails = append(fails, Failure{Key: fmt.Sprintf("aggregate-trial%d-winner-statistics-after-reorder", i),
+							What:  "Trial.WinnerStatistics changed after the recorded generations were reordered in place (one solved generation: the winner record is the same)",
+							Input: c19Input{Kind: "experiment", Exp: in}, Observed: after, Required: before[i]})
+					}
+				}
+				avg1[0], avg1[1], avg1[2], avg1[3] = e.AvgWinnerStatistics()
+				if !c19EqList(avg0[:], avg1[:], false) {
+					fails = append(fails, Failure{Key: "aggregate-avg-winner-statistics-after-reorder",
+						What:  "AvgWinnerStatistics changed after the recorded generations were reordered in place",
+						Input: c19Input{Kind: "experiment", Exp: in}, Observed: avg1, Required: avg0})
+				}
+			}()
+		}
+	}
 	return b, o, fails, anyNil
 }
 
